@@ -89,7 +89,7 @@ func C16(c *core.Ctx) {
 		"--tags json vs the default list => identical types up to tag text, identical methods, constants and imports; --extra-imports off => no YAML method or import, identical types, variables and JSON methods; " +
 		"--struct-name-from-title and --capitalization (on families with concrete names, so that the real identifier synthesiser runs) => identical up to a positional renaming of declared identifiers. " +
 		"B-FLAG: every option flag's variable is the one the Config field implementing that option is loaded from (flag name -> field table frozen in the rule; main.go is executed by no test). " +
-		"Not decided: --schema-root-type."
+		"Multi-file: titled roots referring to each other as whole files under -t, and --schema-root-type for one of two files, keep each root under its own name (A-ROUTE/A-TYP)."
 	d := gen.DefaultConfig()
 	only := d
 	only.OnlyModels = true
@@ -133,6 +133,8 @@ func C16(c *core.Ctx) {
 		})
 	}
 	c.Floor("pairs", c.Counts["pairs"], 800, "option pairs related")
+	// naming options with several files: every root keeps the name ITS OWN title / mapping gives it
+	ruleMultiSel(c, ruleSet("A-ROUTE", "A-TYP", "A-MAP"), 4, "names from titles", "--schema-root-type")
 	emit(c, engb.New(c.Prog).FlagWiring("main.main", "main.init$1", "generator.Config"))
 }
 
